@@ -105,12 +105,14 @@ def run(ctx):
             ctx.ob("R-PROV", "C15.1", f, "criterion is written only by the constructor/configuration (inf) and the loop", f.name in ("__init__", "configure_stopping_criterion", "nested_sampling_loop"), f"`{src(n)}`", node=n)
     rt = prog.cls(INS).methods["reached_tolerance"]
     rets = [n for n in walk_no_nested(rt.node) if isinstance(n, ast.Return)]
-    want_any = "any([c <= t for c, t in zip(self.criterion, self.tolerance)])"
-    want_all = "all([c <= t for c, t in zip(self.criterion, self.tolerance)])"
+    from ..pat import match_expr as _me, find_stmt as _fs
     got = {}
     for r in rets:
         facts = [(canon(e), t) for e, t in guard_facts(FA(rt), FA(rt).cfg.id_of(r))]
-        got[canon(r.value)] = facts
+        for kind in ("any", "all"):
+            if _me(kind + "([$$c <= $$t for $$c, $$t in zip(self.criterion, self.tolerance)])", r.value) is not None:
+                got[kind] = facts
+    want_any, want_all = "any", "all"
     ok_rt = want_any in got and ("self._stop_any", True) in got[want_any] and want_all in got and ("self._stop_any", False) in got[want_all] and len(rets) == 2
     ctx.ob("R-SIB", "C15.1", rt, "criteria meet their tolerances (c <= t pairwise) combined by any iff check_criteria == 'any', else all", ok_rt, f"{list(got)}")
     conf = ctx.fn(INS + ".configure_stopping_criterion")
@@ -120,10 +122,10 @@ def run(ctx):
     csc = ctx.fn(INS + ".compute_stopping_criterion")
     rr = [n for n in walk_no_nested(csc.node) if isinstance(n, ast.Return)]
     inl = single_assignments(csc.node)
-    okr = len(rr) == 1 and canon(rr[0].value, inline=inl) == "[getattr(self, sc) for sc in self.stopping_criterion]"
+    okr = len(rr) == 1 and _me("[getattr(self, $$s) for $$s in self.stopping_criterion]", rr[0].value, inline=inl) is not None
     ctx.ob("R-PROV", "C15.1", csc, "the compared list is [getattr(self, name) for name in the configured criteria], in the order of the tolerances", okr, f"`{src(rr[0].value) if rr else None}`")
     uh2 = ctx.fn(INS + ".update_history")
-    okh = any(isinstance(n, ast.For) and canon(n.iter) == "self.stopping_criterion_aliases.keys()" and "self.history['stopping_criteria'][k].append(getattr(self, k, nan))" in canon(n.body[0]) for n in walk_no_nested(uh2.node))
+    okh = len(_fs("for $$k in self.stopping_criterion_aliases.keys():\n    self.history['stopping_criteria'][$$k].append(getattr(self, $$k, nan))", uh2.node)) == 1
     ctx.ob("R-PROV", "C15.1", uh2, "the run history records the same attributes by the same names (getattr(self, k))", okh, "")
     # criterion definitions
     defs = {}
